@@ -265,10 +265,12 @@ def run(ck):
 
     def _is_record_append(s0):
         return isinstance(s0, ast.Expr) and isinstance(s0.value, ast.Call) and isinstance(s0.value.func, ast.Attribute) \
-            and s0.value.func.attr == "append" and s0.value.args and isinstance(s0.value.args[0], ast.List)
+            and s0.value.func.attr == "append" and s0.value.args and \
+            (isinstance(s0.value.args[0], ast.List) or isinstance(s0.value.func.value, ast.Subscript))
     for fn in finders:
         n_app = sum(1 for s0 in ast.walk(fn.node) if _is_record_append(s0))
-        ck.floor(f"C20.5 record appends (statements) in {fn.module.name}", n_app, 1)
+        if n_app == 0:
+            continue                      # the records are put together some other way: the slot rules below judge (or refuse) it
         stale = stale_reads(fn, _is_record_append)
         for s0, name in stale[:1]:
             ck.violation("C20.5", f"{fn.module.name.split('.')[-1]}.{fn.name}:same-iteration", where(fn, s0),
